@@ -1652,7 +1652,7 @@ Proof.
   - intros cl Hc E. apply Hnin. rewrite <- E. now apply in_map.
   - intros cl [<-|[]]. reflexivity.
   - cbn. lia.
-  - intros cl [<-|[]]. cbn. rewrite H5, set_eff_same. auto.
+  - intros cl [<-|[]]. cbn [claim_ok]. split; [exact H5|cbn [a_eff set_claims]; apply set_eff_same].
   - intros _. discriminate.
   - apply acc_mild.
   - apply (bal_step g a tr _ _ t _ r).
@@ -1707,14 +1707,14 @@ Proof.
   - intros q Hq. rewrite effc_set_claims_same in Hq. left. unfold effc. rewrite Heff. apply in_or_app. now left.
   - apply pre_cl_nodispose; [exact (i_pre _ _ _ _ HI)|]. intros e q [<-|[]]. discriminate.
   - intros Hcond. exfalso.
-    assert (Hlt : List.length (r_ret (get_rec g r)) < cR c).
+    assert (Hsmall : List.length (r_ret (get_rec g r)) < cR c).
     { apply (size_noclaim c g a tr t r _ HI Hcond); [intros q; apply cnt_le_app|exact Hown|].
       intros cl Hc. rewrite Hcl in Hc. destruct Hc as [<-|Hc].
       - intros (act & eff & E & Hle). inversion E; subst. rewrite app_length in Hle. cbn in Hle. lia.
       - apply not_shrinking_other. intros E. apply Hnin. rewrite <- E. now apply in_map. }
     lia.
   - intros Hcond. exfalso.
-    assert (Hlt : List.length (r_ret (get_rec g r)) < cR c).
+    assert (Hsmall : List.length (r_ret (get_rec g r)) < cR c).
     { apply (size_noclaim c g a tr t r _ HI Hcond); [intros q; apply cnt_le_app|exact Hown|].
       intros cl Hc. rewrite Hcl in Hc. destruct Hc as [<-|Hc].
       - intros (act & eff & E & Hle). inversion E; subst. rewrite app_length in Hle. cbn in Hle. lia.
@@ -1808,6 +1808,10 @@ Proof.
     rewrite last_sb_app_other in H3 by (intros te Hin; eapply is_sb_tag_other; [|exact Hin]; congruence).
     apply retired_before_ext. eapply i_retd_scan; eauto.
   - apply pre_cl_nodispose; [exact i_pre|]. intros e p [<-|[<-|[]]]; discriminate.
+  - exact i_collsz.
+  - apply (size_cl_transfer c g a tr g a _ i_size); [apply le_n|intros p; apply cnt_le_app|intros; apply le_n|auto].
+  - apply (noovf_cl_transfer c g tr g _ i_noovf); [apply le_n|intros p; apply cnt_le_app|].
+    intros p. rewrite cnt_app. unfold sb_evs, cnt, Conc.tag. cbn. lia.
 Qed.
 
 Definition with_scan (v : lview) (o : option scanv) : lview := mkV (v_rec v) (v_held v) (v_clr v) o (v_cl v) (v_seen v).
@@ -1872,6 +1876,11 @@ Proof.
   - apply (retd_cl_ext g a tr _ i_retd).
   - apply (retd_scan_cl_ext g a tr t _ i_retd_scan). exact Hnosb.
   - apply pre_cl_nodispose; [exact i_pre|]. intros e p [<-|[]]; discriminate.
+  - exact i_collsz.
+  - apply (size_cl_transfer c g a tr g a _ i_size); [apply le_n|intros p; apply cnt_le_app|intros; apply le_n|auto].
+  - apply (noovf_cl_transfer c g tr g _ i_noovf); [apply le_n|intros p; apply cnt_le_app|].
+    intros p. rewrite cnt_app. rewrite (cnt_tag_none "overflow" p t [ev_scan_end r kept]); [lia|].
+    intros e [<-|[]]. destruct kept as [|x l]; reflexivity.
 Qed.
 
 Lemma inv_scan_end c g a tr t r kept sv :
@@ -2066,6 +2075,20 @@ Proof.
       * apply (Hold r0). unfold effc in *. cbn in Hq. now rewrite Eo in Hq by assumption.
   - intros sv r0 s H1. congruence.
   - apply pre_cl_nodispose; [exact (i_pre _ _ _ _ HI)|]. intros e q [<-|[]]. discriminate.
+  - intros Hcond r0 Ho0.
+    assert (Hold : ovf_cond c g tr) by (eapply ovf_cond_weaken; [exact Hcond|apply le_n|intros q; apply cnt_le_app]).
+    destruct (Nat.eq_dec r0 r) as [->|Hn0].
+    { left. apply (size_noclaim c g a tr t r tr HI Hold); [intros; lia|exact Hown|].
+      intros cl Hc. apply not_shrinking_other. now apply Hno. }
+    destruct (i_size _ _ _ _ HI Hold r0) as [H|(t' & cl & H1 & H2)]; [now left|right].
+    pose proof (shrinking_crec _ _ H2) as Ec.
+    assert (t' = t).
+    { eapply (i_excl _ _ _ _ HI); [|exact Ho0]. rewrite <- Ec. apply (i_claim _ _ _ _ HI t' cl H1). }
+    subst t'. rewrite Hcl in H1. destruct H1 as [<-|H1].
+    + cbn in Ec. subst r0. exists (ClAct h srcl tl). split; [right; now left|].
+      destruct H2 as (act & eff & E & Hle). inversion E; subst act eff. exists srcl, tl. split; [reflexivity|]. cbn in Hle. lia.
+    + exists cl. split; [right; now right|exact H2].
+  - intros _ q. apply cnt_tag_acc.
 Qed.
 
 (** ** 12. progress of stage 1 *)
@@ -2133,11 +2156,12 @@ Lemma step_ld_head_scan c g a tr t coll :
       (tr ++ Conc.tag t [EvAcc KLd obj_head true]).
 Proof.
   intros HI Hsv. assert (HI' := inv_acc c g a tr t KLd obj_head true HI ltac:(discriminate)).
-  eapply inv_scan_step; [exact HI'|exact Hsv|auto|].
-  intros s Hs Hcv Hsn. split; [|exact Hsn].
-  intros r j v Hc Hv Hh. exfalso. apply Hv. rewrite <- (held_slot _ _ _ _ _ _ _ _ _ HI' Hs Hh).
-  unfold covered in Hc. cbn in Hc. destruct Hc as [Hc|(k & E & _)]; [|discriminate].
-  apply (i_zero_unlisted _ _ _ _ HI'). exact Hc.
+  eapply inv_scan_step; [exact HI'|exact Hsv|auto| |].
+  - intros s Hs Hcv Hsn. split; [|exact Hsn].
+    intros r j v Hc Hv Hh. exfalso. apply Hv. rewrite <- (held_slot _ _ _ _ _ _ _ _ _ HI' Hs Hh).
+    unfold covered in Hc. cbn in Hc. destruct Hc as [Hc|(k & E & _)]; [|discriminate].
+    apply (i_zero_unlisted _ _ _ _ HI'). exact Hc.
+  - unfold collsz_ok. cbn. intros ->. cbn. lia.
 Qed.
 
 (** owner_rec_.load() of the next record *)
@@ -2147,9 +2171,9 @@ Lemma step_ld_owner_scan c g a tr t coll r' l' seen :
   Inv c g (upd_view a t (scan_view (view a t) sv' seen)) (tr ++ Conc.tag t [EvAcc KLd (obj_owner r') true]).
 Proof.
   intros HI Hsv Hseen sv'. assert (HI' := inv_acc c g a tr t KLd (obj_owner r') true HI ltac:(discriminate)).
-  eapply inv_scan_step; [exact HI'|exact Hsv| |].
+  eapply inv_scan_step; [exact HI'|exact Hsv| | |].
   { intros r H. subst seen. apply (i_seen _ _ _ _ HI' t r H). }
-  intros s Hs Hcv Hsn. unfold sv'. destruct (r_owner (get_rec g r')) eqn:Eo.
+  { intros s Hs Hcv Hsn. unfold sv'. destruct (r_owner (get_rec g r')) eqn:Eo.
   - rewrite pos_sv_coll. split; [|exact Hsn].
     intros r j v Hc Hv Hh. apply covered_pos in Hc; [|lia].
     destruct Hc as [Hc|(-> & [Hc|Hc])]; [| lia |].
@@ -2159,7 +2183,10 @@ Proof.
     intros r j v Hc Hv Hh. unfold covered in Hc; cbn in Hc. destruct Hc as [Hc|(k & E & _)]; [|discriminate].
     destruct (Nat.eq_dec r r') as [->|Hne].
     + exfalso. apply Hv. rewrite <- (held_slot _ _ _ _ _ _ _ _ _ HI' Hs Hh). now apply (i_zero_unowned _ _ _ _ HI').
-    + apply (Hcv r j v); [|exact Hv|exact Hh]. unfold covered; cbn. left. intros [E|Hin]; [congruence|contradiction].
+    + apply (Hcv r j v); [|exact Hv|exact Hh]. unfold covered; cbn. left. intros [E|Hin]; [congruence|contradiction]. }
+  unfold collsz_ok, sv'. cbn [sc_todo sc_cur sc_coll]. intros Hc.
+  destruct (r_owner (get_rec g r')); [|cbn [sc_todo sc_cur sc_coll]; cbn [List.length] in Hc; nia].
+  unfold pos_sv. destruct (Nat.ltb_spec 0 (cH c)); cbn [sc_todo sc_cur sc_coll]; cbn [List.length] in *; nia.
 Qed.
 
 (** hazards_[k].load() *)
@@ -2173,9 +2200,9 @@ Lemma step_ld_slot_scan c g a tr t coll r' l' k seen :
 Proof.
   intros HI Hk Hsv Hseen v0 coll'.
   assert (HI' := inv_acc c g a tr t KLd (obj_slot r' k) true HI ltac:(discriminate)).
-  eapply inv_scan_step; [exact HI'|exact Hsv| |].
+  eapply inv_scan_step; [exact HI'|exact Hsv| | |].
   { intros r H. subst seen. apply (i_seen _ _ _ _ HI' t r H). }
-  intros s Hs Hcv Hsn. rewrite pos_sv_coll. cbn [sc_coll] in *.
+  { intros s Hs Hcv Hsn. rewrite pos_sv_coll. cbn [sc_coll] in *.
   assert (Hsub : forall v, In v coll -> In v coll').
   { intros v H. unfold coll'. destruct (Z.eqb v0 0); [exact H|apply in_or_app; now left]. }
   split.
@@ -2193,5 +2220,9 @@ Proof.
     apply in_app_or in Hv. destruct Hv as [Hv|[<-|[]]]; [now apply Hsn|].
     pose proof (last_sb_lt _ _ _ Hs) as Hlt.
     exists r', k, (List.length (tr ++ Conc.tag t [EvAcc KLd (obj_slot r' k) true])). split; [lia|].
-    rewrite firstn_all. apply (i_slot _ _ _ _ HI').
+    rewrite firstn_all. apply (i_slot _ _ _ _ HI'). }
+  unfold collsz_ok. cbn [sc_todo sc_cur sc_coll]. intros Hc.
+  assert (Hl : List.length coll' <= S (List.length coll)).
+  { unfold coll'. destruct (Z.eqb v0 0); [lia|]. rewrite app_length. cbn. lia. }
+  unfold pos_sv. destruct (Nat.ltb_spec (S k) (cH c)); cbn [sc_todo sc_cur sc_coll]; cbn [List.length] in *; nia.
 Qed.
